@@ -172,6 +172,9 @@ def col_defaultdict(eng, args, kwargs, node):
     return DefaultDict(args[0] if args else None)
 
 
+col_counter_factory = Builtin('collections.Counter', lambda e, a, k, n: CounterDict())
+
+
 def col_counter(eng, args, kwargs, node):
     c = CounterDict()
     if args:
